@@ -122,3 +122,45 @@ def run_C10(ctx):
     r2 = ctx.tlc("MC_C10cyc", timeout=900)
     res2 = ctx.vh_isolated("c10-replay", r2.out, chunk=400, timeout=120, sig_prefix="c10")
     ctx.absorb(res2, "G:c10-replay(cycles)")
+
+
+# ------------------------------------------------------------------ C07 / C14 / C09
+def _include_graphs(ctx, tag):
+    cfg = "MC_C07_quick.cfg" if ctx.quick else "MC_C07_thorough.cfg"
+    r = ctx.tlc("MC_C07", cfg=cfg, timeout=3000)
+    res = ctx.vh_isolated("c07-replay", r.out, chunk=20000, timeout=900, sig_prefix="c07")
+    return r, res
+
+
+def run_C07(ctx):
+    ctx.cov["rule"] = ("G: every terminal state of the include-graph model (3 files quick / 4 thorough; root <= 3 tokens, others <= 2, menu: TYPE, a misplaced Body, "
+                       "explicit URL, ')', INCLUDE of each file / of a missing file, plus rare names and malformed INCLUDE lines); contents are chosen lazily when a file is first opened. "
+                       "For each: error class, file, line, recomputed line/column/quote, include trace (rendered vs model), trace of every accepted directive, and the "
+                       "duplicate-TYPE rule error of the build phase with its trace. Non-trivial = has at least one INCLUDE, distinct by token kinds of all files.")
+    ctx.assumptions += ["files use LF line endings (mixed conventions are outside the definition of 'the line this index has')",
+                        "known finding C07-tracer-cache is recognised only when the observed trace equals the quirk model's prediction"]
+    r, res = _include_graphs(ctx, "c07")
+    ctx.absorb(res, "G:c07-replay")
+    ctx.cov["exhaustive"] = True
+    st = ctx.vh("c07-replay", r.out, "selftest")
+    ctx.selftest(st["n_mismatch"] >= st["cases"] * 0.95, "C07 G: corrupted verdicts / traces are reported")
+
+
+def run_C14(ctx):
+    ctx.cov["rule"] = ("G(names): every INCLUDE parameter over the alphabet {a . / \\ space} up to 6 (quick) / 7 (thorough) characters against a project with decoy files outside the root; "
+                       "the file-access hook records every path handed to the OS. G(graphs): every terminal state of the include-graph model (cycles of every length over the files, "
+                       "repeated non-cyclic inclusion, missing file, directory, refused names). Non-trivial = distinct (class, outcome, path depth) / graphs with an INCLUDE.")
+    ctx.assumptions += ["names that need quoting and contain a backslash are skipped (the scanner's quoted-parameter escapes change them); they are covered bare"]
+    cfg = "MC_C14_quick.cfg" if ctx.quick else "MC_C14_thorough.cfg"
+    r = ctx.tlc("MC_C14", cfg=cfg, timeout=900)
+    res = ctx.vh("c14-replay", r.out)
+    ctx.absorb(res, "G:c14-replay(names)")
+    st = ctx.vh("c14-replay", r.out, "selftest")
+    ctx.selftest(st["n_mismatch"] == st["cases"], "C14 G: corrupted name classes are reported")
+    r2, res2 = _include_graphs(ctx, "c14")
+    # C14 owns: paths handed to the OS, recursion / missing / directory verdicts and their location
+    keep = [m for m in (res2.get("mismatches") or []) if not m["sig"].startswith("c07:tracer-cache-quirk")
+            and not m["sig"].startswith(("c07:trace-", "c07:node-trace", "c07:dup-trace", "c07:location-fields"))]
+    res2 = dict(res2, mismatches=keep, n_mismatch=len(keep))
+    ctx.absorb(res2, "G:c07-replay(graphs)")
+    ctx.cov["exhaustive"] = True
